@@ -1,7 +1,7 @@
 (* C03 -- Command builders emit valid frames of the advertised verb/code that decode back.  Statements only.
    PAYLOAD_REGEXES and API_MAP are regenerated from the source on every run; `payload_ok` is re.match by the verified matcher. *)
 From Coq Require Import ZArith String Ascii List Bool.
-From RV Require Import Py PyStr Regex GenRegex GenTables M_Codecs M_Command P_Command M_ModeCmd P_ModeCmd.
+From RV Require Import Py PyStr Regex GenRegex GenTables M_Codecs M_Command P_Command M_ModeCmd P_ModeCmd M_ParamCmd P_ParamCmd.
 Import ListNotations.
 Open Scope Z_scope.
 
@@ -105,3 +105,22 @@ Theorem C03_mode_cmds_registered :
   registered V_W 0x2349 "set_zone_mode" = true /\ registered V_W 0x1F41 "set_dhw_mode" = true /\ registered V_W 0x2E04 "set_system_mode" = true /\
   registered V_W 0x313F "set_system_time" = true /\ registered V_W 0x000A "set_zone_config" = true.
 Proof. vm_compute. repeat split. Qed.
+
+(* ---- parameter and sensor commands (M_ParamCmd) ---- *)
+(* set_dhw_params: DHW 00/01, setpoint 30..85, overrun 0..10, differential 1..10 on the 0.01 grid: accepted for W|10A0 and decoded back *)
+Theorem C03_set_dhw_params_valid : forall dhw_idx ksp ov kd p, 0 <= dhw_idx <= 1 -> set_dhw_params dhw_idx ksp ov kd = Some p ->
+  3000 <= ksp <= 8500 /\ 0 <= ov <= 10 /\ 100 <= kd <= 1000 /\ payload_ok V_W 0x10A0 p = true /\
+  parser_10a0 p = (do s <- hex_to_temp ksp; do d <- hex_to_temp kd; Ok (mk_dhwp (if is_255 s then TNone else s) ov d)).
+Proof. exact set_dhw_params_valid. Qed.
+(* set_mix_valve_params: every zone 0..15 and every parameter combination it does not refuse: accepted for W|1030, the five parameters read back in order *)
+Theorem C03_set_mix_valve_params_valid : forall idx maxf minf vrt prt bcc p, 0 <= idx < 16 -> 0 <= bcc < 256 ->
+  set_mix_valve_params idx maxf minf vrt prt bcc = Some p ->
+  0 <= maxf <= 99 /\ 0 <= minf <= 50 /\ 0 <= vrt <= 240 /\ 0 <= prt <= 99 /\ payload_ok V_W 0x1030 p = true /\
+  parser_1030 p = Ok [(0xC8, maxf); (0xC9, minf); (0xCA, vrt); (0xCB, prt); (0xCC, bcc)].
+Proof. exact set_mix_valve_params_valid. Qed.
+(* put_sensor_temp (I|30C9) / put_dhw_temp (I|1260): EVERY word the temperature encoder can produce (None = 7FFF) is accepted and decodes to what that word stands for
+   -- or is rejected exactly when the C04 decoder rejects the word (below -273.15: known finding) *)
+Theorem C03_put_temp_valid : forall w, (forall x, w = Some x -> 0 <= x < 65536) ->
+  payload_ok V_I 0x30C9 (put_temp_payload w) = true /\ payload_ok V_I 0x1260 (put_temp_payload w) = true /\
+  parser_temp_tail (put_temp_payload w) = hex_to_temp (word_of_opt w).
+Proof. exact put_temp_valid. Qed.
